@@ -637,3 +637,498 @@ def c04_wrap(ctx):
     p0 = rb.args.args[0].arg
     ctx.check(all(r.value is not None and dotted(r.value) == p0 for r in nodes_of_type(rb, ast.Return)) and nodes_of_type(rb, ast.Return), rb,
               "loky _rebuild_exc returns the original exception object (cause attached, type untouched)")
+
+
+# ---------------------------------------------------------------------------
+# C01 clauses
+# ---------------------------------------------------------------------------
+
+_PFX = ("self.", "self.parallel.", "_parallel.", "parallel.")
+
+
+def _state_attr(d):
+    """'_jobs' for 'self._jobs' / 'self.parallel._jobs' ... else None."""
+    if not d:
+        return None
+    for p in sorted(_PFX, key=len, reverse=True):
+        if d.startswith(p) and "." not in d[len(p):]:
+            return d[len(p):]
+    return None
+
+
+GUARDED_CALLS = {
+    "_ready_batches": {"get", "put", "get_nowait", "put_nowait"},
+    "_jobs": {"append", "popleft", "pop", "appendleft", "remove", "extend", "insert", "clear"},
+    "_jobs_set": {"add", "remove", "discard", "pop", "clear"},
+}
+GUARDED_COUNTERS = {"n_dispatched_tasks", "n_dispatched_batches", "n_completed_tasks"}
+# functions that run before any callback thread of this call exists, or when
+# no callback thread exists at all (one reason each):
+LOCK_EXEMPT = {
+    "Parallel.__init__": "object under construction",
+    "Parallel._reset_run_tracking": "prologue: no batch of this call dispatched yet; late callbacks of the previous call are cut by the call-id guard",
+    "Parallel._get_sequential_output": "n_jobs == 1: no backend, no callback thread",
+    "Parallel.__call__": "prologue before the first dispatch",
+}
+
+
+def _par_methods(ctx):
+    out = []
+    for cname in ("Parallel", "BatchCompletionCallBack"):
+        c = ctx.repo.cls(PAR, cname)
+        for st in c.body:
+            if isinstance(st, ast.FunctionDef):
+                out.append(st)
+    return out
+
+
+def guarded_ops(ctx):
+    ops = []
+    for fn in _par_methods(ctx):
+        for n in body_walk(fn):
+            if isinstance(n, ast.Call) and isinstance(n.func, ast.Attribute):
+                a = _state_attr(dotted(n.func.value))
+                if a in GUARDED_CALLS and n.func.attr in GUARDED_CALLS[a]:
+                    ops.append((fn, n, "%s.%s()" % (a, n.func.attr)))
+                # advancing the task iterator
+                if call_name(n) == "list" and False:
+                    pass
+            if isinstance(n, ast.Call) and call_name(n) in ("itertools.islice", "islice") and n.args and dotted(n.args[0]) in ("iterator", "self._original_iterator"):
+                p = parent(n)
+                if isinstance(p, ast.Call) and call_name(p) in ("list", "tuple"):
+                    ops.append((fn, n, "advance of the task iterator (list(islice(...)))"))
+            if isinstance(n, ast.AugAssign):
+                a = _state_attr(dotted(n.target))
+                if a in GUARDED_COUNTERS:
+                    ops.append((fn, n, "%s %s=" % (a, type(n.op).__name__)))
+        if fn._qualname == "Parallel.dispatch_next":
+            for n in body_walk(fn):
+                if isinstance(n, ast.Assign):
+                    for t in stores_to(n):
+                        if _state_attr(t) in ("_iterating", "_original_iterator"):
+                            ops.append((fn, n, "store to %s from the callback path" % _state_attr(t)))
+    return ops
+
+
+def c01_lock(ctx, only_iterator=False):
+    entry = [F(ctx, "BatchCompletionCallBack.__call__"), F(ctx, "Parallel.__call__"), F(ctx, "Parallel._get_outputs"),
+             F(ctx, "Parallel._retrieve"), F(ctx, "BatchCompletionCallBack.get_result"), F(ctx, "BatchCompletionCallBack.get_status")]
+    ops = guarded_ops(ctx)
+    n = 0
+    for fn, node, what in ops:
+        if only_iterator and "iterator" not in what and "_ready_batches" not in what and "_iterating" not in what:
+            continue
+        if fn._qualname in LOCK_EXEMPT:
+            ctx.note("exempt %s in %s: %s" % (what, fn._qualname, LOCK_EXEMPT[fn._qualname]))
+            continue
+        n += 1
+        ok, why = held_at(ctx.res, node, LOCK_NAMES, LOCK, entry, SCOPE)
+        ctx.check(ok, node, "%s runs with the dispatch lock held: %s" % (what, why),
+                  "%s can run WITHOUT the dispatch lock (%s): callback threads and the caller thread race on it" % (what, why))
+    ctx.floor(n, 4 if only_iterator else 14, "guarded operations on dispatch state")
+
+
+def c01_reg_before_submit(ctx):
+    f = F(ctx, "Parallel._dispatch")
+    g = cfg_of(f)
+    subs = [c for c in calls_in(f) if call_name(c) == "self._backend.submit"]
+    ctx.need(subs, "_dispatch no longer calls self._backend.submit")
+
+    def is_reg(n):
+        return isinstance(n, ast.Call) and isinstance(n.func, ast.Attribute) and (
+            (_state_attr(dotted(n.func.value)) == "_jobs" and n.func.attr == "append") or
+            (_state_attr(dotted(n.func.value)) == "_jobs_set" and n.func.attr == "add"))
+    regs = sites(ctx.res, f, is_reg, depth=2, must=True)
+    for s in subs:
+        ctx.check(bool(regs) and g.every_path_to(g.nodes_of(s), g.nodes_of_all(regs)), s,
+                  "the batch tracker is registered (jobs queue / jobs set) on every path before backend.submit",
+                  "backend.submit can be reached before the tracker is registered: a fast completion callback finds no job entry")
+        cb = kwarg(s, "callback", 1)
+        trackers = [a for a in nodes_of_type(f, ast.Assign) if isinstance(a.value, ast.Call) and call_name(a.value) == "BatchCompletionCallBack"]
+        tn = trackers[0].targets[0].id if trackers and isinstance(trackers[0].targets[0], ast.Name) else None
+        ctx.check(cb is not None and tn is not None and dotted(cb) == tn, s, "submit receives the registered tracker as callback")
+        reg_args = [r.args[0] for r in regs if isinstance(r, ast.Call) and r.args]
+        ctx.check(any(dotted(a) == tn for a in reg_args), s, "the registered object is the tracker passed to submit")
+        ctx.check(s.args and dotted(s.args[0]) == (f.args.args[1].arg if len(f.args.args) > 1 else None), s, "submit receives the batch given to _dispatch")
+    rj = [c for c in calls_in(f) if call_attr(c) == "register_job"]
+    ctx.check(bool(rj) and g.every_path_to(g.nodes_of_all(rj), g.nodes_of_all(subs)), rj[0] if rj else f, "register_job(job) follows submit")
+    # _register_new_job stores into the structure the retrieval side reads
+    rn = F(ctx, "Parallel._register_new_job")
+    gg = cfg_of(rn)
+    for n in body_walk(rn):
+        if is_reg(n):
+            conds = gg.conditions_at(gg.nodes_of(n))
+            ordered = n.func.attr == "append"
+            ok = any(unparse(t) == "self.return_ordered" and pol == ordered for (_, t, pol) in conds)
+            ctx.check(ok, n, "%s iff return_ordered is %s" % (unparse(n, 50), ordered))
+
+
+def c01_fifo(ctx):
+    bad_methods = {"pop", "appendleft", "reverse", "rotate", "insert", "sort", "extendleft"}
+    n_app = n_pop = 0
+    for fn in _par_methods(ctx):
+        aliases = {"self._jobs", "self.parallel._jobs", "_parallel._jobs"}
+        for n in body_walk(fn):
+            if isinstance(n, ast.Assign):
+                v = n.value
+                srcs = [v.body, v.orelse] if isinstance(v, ast.IfExp) else [v]
+                if any(dotted(s) in aliases for s in srcs):
+                    for t in n.targets:
+                        if isinstance(t, ast.Name):
+                            aliases.add(t.id)
+        for n in body_walk(fn):
+            if isinstance(n, ast.Call) and isinstance(n.func, ast.Attribute) and dotted(n.func.value) in aliases:
+                m = n.func.attr
+                if m in bad_methods:
+                    ctx.bad(n, "%s() on the jobs queue breaks submission-order (FIFO) retrieval" % m)
+                elif m == "append":
+                    n_app += 1
+                    ctx.ok(n, "producer side appends on the right")
+                elif m == "popleft":
+                    n_pop += 1
+                    ctx.ok(n, "consumer side pops from the left")
+            if isinstance(n, ast.Call) and call_name(n) in ("reversed", "sorted") and n.args and dotted(n.args[0]) in aliases:
+                ctx.bad(n, "%s() over the jobs queue re-orders retrieval" % call_name(n))
+            if isinstance(n, ast.Subscript) and dotted(n.value) in aliases and isinstance(n.ctx, ast.Load):
+                idx = const_value(n.slice)
+                ctx.check(idx == 0, n, "only the head of the jobs queue is inspected (index 0)",
+                          "jobs queue indexed at %s: retrieval waits on / takes a job that is not the oldest" % unparse(n.slice))
+    ctx.floor(n_app, 2, "append sites on the jobs queue")
+    ctx.floor(n_pop, 2, "popleft sites on the jobs queue")
+
+
+def _single_defs(func, name):
+    return [a for a in nodes_of_type(func, ast.Assign) if name in stores_to(a)]
+
+
+def lower_bound(expr, func=None, depth=2):
+    """Integer lower bound of an expression built from max/min/constants,
+    or None."""
+    if isinstance(expr, ast.Constant) and isinstance(expr.value, int):
+        return expr.value
+    if isinstance(expr, ast.Call) and call_name(expr) == "max":
+        bs = [lower_bound(a, func, depth) for a in expr.args]
+        bs = [b for b in bs if b is not None]
+        return max(bs) if bs else None
+    if isinstance(expr, ast.Call) and call_name(expr) == "min":
+        bs = [lower_bound(a, func, depth) for a in expr.args]
+        return min(bs) if bs and all(b is not None for b in bs) else None
+    if isinstance(expr, ast.Name) and func is not None and depth > 0:
+        defs = _single_defs(func, expr.id)
+        bs = [lower_bound(d.value, func, depth - 1) for d in defs]
+        if defs and all(b is not None for b in bs):
+            return min(bs)
+    return None
+
+
+def c01_partition(ctx):
+    f = F(ctx, "Parallel.dispatch_one_batch")
+    loops = []
+    for n in nodes_of_type(f, ast.For):
+        if any(call_name(c) == "BatchedCalls" for c in calls_in(n)):
+            loops.append(n)
+    ctx.need(loops, "the loop building BatchedCalls was not found in dispatch_one_batch")
+    for lp in loops:
+        it = lp.iter
+        bc = [c for c in calls_in(lp) if call_name(c) == "BatchedCalls"][0]
+        sl = bc.args[0] if bc.args else None
+        if not (isinstance(it, ast.Call) and call_name(it) == "range" and isinstance(lp.target, ast.Name) and isinstance(sl, ast.Subscript) and isinstance(sl.slice, ast.Slice)):
+            raise_und = "batch construction is not the recognised range()/slice shape"
+            ctx.need(False, raise_und)
+        i = lp.target.id
+        a = it.args
+        start = a[0] if len(a) >= 2 else ast.Constant(0)
+        stop = a[1] if len(a) >= 2 else a[0]
+        step = a[2] if len(a) >= 3 else ast.Constant(1)
+        X = dotted(sl.value)
+        ctx.check(const_value(start) == 0, lp, "batch offsets start at 0", "batch offsets start at %s: leading tasks are skipped" % unparse(start))
+        ctx.check(isinstance(stop, ast.Call) and call_name(stop) == "len" and dotted(stop.args[0]) == X, lp,
+                  "batch offsets cover len(%s) of the same sequence that is sliced" % X,
+                  "range stop %s is not len() of the sliced sequence %s: trailing tasks are lost or out of range" % (unparse(stop), X))
+        lo, hi = sl.slice.lower, sl.slice.upper
+        ctx.check(lo is not None and dotted(lo) == i and sl.slice.step is None, bc, "slice starts at the loop offset",
+                  "slice lower bound %s is not the loop offset" % (unparse(lo) if lo else None))
+        ok_hi = isinstance(hi, ast.BinOp) and isinstance(hi.op, ast.Add) and (
+            (dotted(hi.left) == i and ast.dump(hi.right) == ast.dump(step)) or (dotted(hi.right) == i and ast.dump(hi.left) == ast.dump(step)))
+        ctx.check(ok_hi, bc, "slice width equals the range step (consecutive slices tile the sequence: no gap, no overlap)",
+                  "slice upper bound %s is not offset + step (%s): tasks are dropped or run twice" % (unparse(hi) if hi else None, unparse(step)))
+        lb = lower_bound(step, f)
+        ctx.check(lb is not None and lb >= 1, lp, "step has lower bound %s >= 1 on every definition (max(1, ...))" % lb,
+                  "step %s is not bounded below by 1" % unparse(step))
+        # X is the materialised slice of the iterator
+        defs = _single_defs(f, X)
+        ctx.check(len(defs) == 1 and isinstance(defs[0].value, ast.Call) and call_name(defs[0].value) == "list" and
+                  any(call_name(c) in ("itertools.islice", "islice") for c in calls_in(defs[0].value)), defs[0] if defs else lp,
+                  "%s is the list of items just taken from the task iterator" % X)
+
+
+def c01_each_once(ctx):
+    f = F(ctx, "Parallel.dispatch_one_batch")
+    g = cfg_of(f)
+    puts = [c for c in calls_in(f) if call_attr(c) in ("put", "put_nowait") and _state_attr(dotted(c.func.value)) == "_ready_batches"]
+    gets = [c for c in calls_in(f) if call_attr(c) in ("get", "get_nowait") and _state_attr(dotted(c.func.value)) == "_ready_batches"]
+    ctx.need(puts and gets, "look-ahead queue put/get not found in dispatch_one_batch")
+    loops = [n for n in nodes_of_type(f, ast.For) if any(call_name(c) == "BatchedCalls" for c in calls_in(n))]
+    ctx.need(loops, "batch-building loop not found")
+    lp = loops[0]
+    in_loop = [p for p in puts if in_block(p, lp.body)]
+    direct = [p for p in in_loop if enclosing_stmt(p) in lp.body]
+    ctx.check(len(in_loop) == 1 and len(direct) == 1, in_loop[0] if in_loop else lp,
+              "exactly one unconditional put per constructed batch",
+              "the batch loop has %d put site(s), %d unconditional: a batch can be skipped or queued twice" % (len(in_loop), len(direct)))
+    if direct:
+        p = direct[0]
+        built = [a for a in lp.body if isinstance(a, ast.Assign) and isinstance(a.value, ast.Call) and call_name(a.value) == "BatchedCalls"]
+        arg = p.args[0] if p.args else None
+        ok = (built and isinstance(built[0].targets[0], ast.Name) and dotted(arg) == built[0].targets[0].id) or (isinstance(arg, ast.Call) and call_name(arg) == "BatchedCalls")
+        ctx.check(ok, p, "the object queued is the BatchedCalls built in this iteration")
+        ctx.check(not any(isinstance(n, (ast.Continue, ast.Break)) for s in lp.body for n in walk_local(s)), lp, "no continue/break in the batch loop")
+    for p in puts:
+        if not in_block(p, lp.body):
+            ctx.bad(p, "a put on the look-ahead queue outside the batch-building loop")
+    # every batch taken from the queue is dispatched (or is empty)
+    disp = [c for c in calls_in(f) if call_name(c) == "self._dispatch"]
+    ctx.need(disp, "dispatch_one_batch no longer calls self._dispatch")
+    tvars = set()
+    for c in gets:
+        st = enclosing_stmt(c)
+        if isinstance(st, ast.Assign) and isinstance(st.targets[0], ast.Name):
+            tvars.add(st.targets[0].id)
+        else:
+            ctx.bad(c, "value taken from the look-ahead queue is not bound (dropped)")
+    ctx.check(len(tvars) == 1, gets[0], "all gets bind the same variable")
+    tv = sorted(tvars)[0] if tvars else None
+    for d in disp:
+        ctx.check(d.args and dotted(d.args[0]) == tv, d, "the batch taken from the queue is what gets dispatched")
+    allowed = set(g.nodes_of_all(disp))
+    for r in nodes_of_type(f, ast.Return):
+        conds = g.conditions_at(g.nodes_of(r))
+        for (_, t, pol) in conds:
+            if isinstance(t, ast.Compare) and isinstance(t.left, ast.Call) and call_name(t.left) == "len" and dotted(t.left.args[0]) == tv:
+                op = t.ops[0]
+                zero = const_value(t.comparators[0]) == 0
+                if zero and ((isinstance(op, ast.Eq) and pol) or (isinstance(op, (ast.NotEq, ast.Gt)) and not pol)):
+                    allowed.update(g.nodes_of(r))
+    for c in gets:
+        ctx.check(g.every_path_from(g.nodes_of(c), allowed, skip_exc=True), c,
+                  "every normal path from this get reaches _dispatch(tasks) unless the batch is empty",
+                  "a non-empty batch taken from the look-ahead queue can be dropped without being dispatched")
+    for d in disp:
+        ctx.check(not g.in_cycle(g.nodes_of(d)[0]), d, "at most one _dispatch per dispatch_one_batch call")
+    # nobody else touches the look-ahead queue
+    for fn in _par_methods(ctx):
+        if fn is f:
+            continue
+        for n in body_walk(fn):
+            if isinstance(n, ast.Call) and isinstance(n.func, ast.Attribute) and _state_attr(dotted(n.func.value)) == "_ready_batches":
+                ctx.bad(n, "the look-ahead queue is accessed outside dispatch_one_batch")
+    # the result of get / the return value of dispatch: True after dispatch
+    for d in disp:
+        nxt = [r for r in nodes_of_type(f, ast.Return) if g.path_exists(g.nodes_of(d), g.nodes_of(r))]
+        ctx.check(nxt and all(is_const(r.value, True) for r in nxt), d, "dispatch_one_batch returns True after dispatching")
+
+
+def c01_flatten(ctx):
+    n_loops = 0
+    for q in ("Parallel._retrieve", "Parallel._get_outputs"):
+        f = F(ctx, q)
+        for a in nodes_of_type(f, ast.Assign):
+            if isinstance(a.value, ast.Call) and call_attr(a.value) == "get_result" and isinstance(a.targets[0], ast.Name):
+                var = a.targets[0].id
+                loops = [l for l in nodes_of_type(f, ast.For) if dotted(l.iter) == var]
+                if not loops:
+                    ctx.bad(a, "result batch obtained from get_result is not iterated in order")
+                    continue
+                for l in loops:
+                    n_loops += 1
+                    ys = [n for s in l.body for n in walk_local(s) if isinstance(n, ast.Yield)]
+                    direct = [y for y in ys if enclosing_stmt(y) in l.body]
+                    ok = len(ys) == 1 and len(direct) == 1 and dotted(ys[0].value) == dotted(l.target)
+                    ctx.check(ok, l, "every element of the batch result is yielded once, in order, unconditionally",
+                              "flattening loop does not yield each element exactly once in order")
+                    ctx.check(not any(isinstance(n, (ast.Continue, ast.Break)) for s in l.body for n in walk_local(s)), l, "no continue/break while flattening")
+    ctx.floor(n_loops, 2, "flattening loops")
+    bc = F(ctx, "BatchedCalls.__call__")
+    rets = nodes_of_type(bc, ast.Return)
+    ctx.need(len(rets) == 1, "BatchedCalls.__call__ has not exactly one return")
+    v = rets[0].value
+    if isinstance(v, ast.ListComp):
+        gen = v.generators
+        ok = len(gen) == 1 and not gen[0].ifs and dotted(gen[0].iter) == "self.items"
+        ctx.check(ok, rets[0], "BatchedCalls runs its items by one in-order pass over self.items (no filter)",
+                  "BatchedCalls.__call__ iterates %s%s" % (unparse(gen[0].iter), " with a filter" if gen and gen[0].ifs else ""))
+        tg = gen[0].target
+        e = v.elt
+        names = [x.id for x in tg.elts] if isinstance(tg, ast.Tuple) and all(isinstance(x, ast.Name) for x in tg.elts) else []
+        ok2 = (len(names) == 3 and isinstance(e, ast.Call) and dotted(e.func) == names[0] and len(e.args) == 1 and isinstance(e.args[0], ast.Starred)
+               and dotted(e.args[0].value) == names[1] and len(e.keywords) == 1 and e.keywords[0].arg is None and dotted(e.keywords[0].value) == names[2])
+        ctx.check(ok2, rets[0], "each item (func, args, kwargs) is called as func(*args, **kwargs)")
+    else:
+        ctx.need(False, "BatchedCalls.__call__ does not return a list comprehension (shape not recognised)")
+    bi = F(ctx, "BatchedCalls.__init__")
+    st = assigns_to(bi, "self.items")
+    ctx.check(len(st) == 1 and isinstance(st[0].value, ast.Call) and call_name(st[0].value) == "list" and dotted(st[0].value.args[0]) == bi.args.args[1].arg,
+              st[0] if st else bi, "BatchedCalls.items is list(<slice>) in order")
+    so = F(ctx, "Parallel._get_sequential_output")
+    loops = [l for l in nodes_of_type(so, ast.For) if isinstance(l.target, ast.Tuple) and len(l.target.elts) == 3]
+    ctx.need(loops, "sequential loop over (func, args, kwargs) not found")
+    for l in loops:
+        names = [dotted(x) for x in l.target.elts]
+        calls = [c for s in l.body for c in calls_in(s) if dotted(c.func) == names[0]]
+        ok = len(calls) == 1 and enclosing_stmt(calls[0]) in l.body and len(calls[0].args) == 1 and isinstance(calls[0].args[0], ast.Starred) and dotted(calls[0].args[0].value) == names[1]
+        ctx.check(ok, l, "sequential path calls each task exactly once, unconditionally")
+        ys = [n for s in l.body for n in walk_local(s) if isinstance(n, ast.Yield)]
+        st_ = enclosing_stmt(calls[0]) if calls else None
+        res = st_.targets[0].id if isinstance(st_, ast.Assign) and isinstance(st_.targets[0], ast.Name) else None
+        ctx.check(len(ys) == 1 and enclosing_stmt(ys[0]) in l.body and dotted(ys[0].value) == res, l, "sequential path yields each result once, in order")
+        ctx.check(dotted(l.iter) in ("iterable",), l, "sequential loop iterates the task iterable itself")
+
+
+def c01_count(ctx):
+    f = F(ctx, "Parallel._dispatch")
+    g = cfg_of(f)
+    subs = [c for c in calls_in(f) if call_name(c) == "self._backend.submit"]
+    ctx.need(subs, "no submit in _dispatch")
+    aug = [n for n in nodes_of_type(f, ast.AugAssign) if _state_attr(dotted(n.target)) == "n_dispatched_tasks"]
+    if not aug:
+        ctx.bad(f, "_dispatch does not count dispatched tasks", key=PAR + "::Parallel._dispatch::n_dispatched_tasks +=")
+        return
+    batch = f.args.args[1].arg
+    for a in aug:
+        v = a.value
+        if isinstance(v, ast.Name):
+            d = _single_defs(f, v.id)
+            v = d[0].value if len(d) == 1 else v
+        ok = isinstance(a.op, ast.Add) and isinstance(v, ast.Call) and call_name(v) == "len" and dotted(v.args[0]) == batch
+        ctx.check(ok, a, "n_dispatched_tasks grows by len(batch)", "n_dispatched_tasks is not increased by len(batch)")
+        ctx.check(g.every_path_from(g.nodes_of(a), g.nodes_of_all(subs)), a, "every counted batch is submitted")
+        ctx.check(g.every_path_to(g.nodes_of_all(subs), g.nodes_of(a)), a, "every submitted batch is counted")
+        ctx.check(not g.in_cycle(g.nodes_of(a)[0]), a, "counted once per _dispatch")
+    dn = F(ctx, "BatchCompletionCallBack._dispatch_new")
+    gd = cfg_of(dn)
+    aug = [n for n in nodes_of_type(dn, ast.AugAssign) if _state_attr(dotted(n.target)) == "n_completed_tasks"]
+    ctx.check(len(aug) == 1, aug[0] if aug else dn, "exactly one completed-tasks update in _dispatch_new",
+              "%d completed-tasks updates in _dispatch_new" % len(aug), key=None if aug else PAR + "::BatchCompletionCallBack._dispatch_new::n_completed_tasks +=")
+    for a in aug:
+        ctx.check(isinstance(a.op, ast.Add) and dotted(a.value) == "self.batch_size", a, "completed counter grows by the tracker's batch size")
+        ctx.check(gd.every_path_from([gd.entry], gd.nodes_of(a)) and not gd.in_cycle(gd.nodes_of(a)[0]), a, "on every normal path, exactly once")
+    cbi = F(ctx, "BatchCompletionCallBack.__init__")
+    st = assigns_to(cbi, "self.batch_size")
+    ctx.check(bool(st) and dotted(st[0].value) == "batch_size", st[0] if st else cbi, "tracker batch size is the constructor argument")
+    trk = [c for c in calls_in(f) if call_name(c) == "BatchCompletionCallBack"]
+    for c in trk:
+        a1 = c.args[1] if len(c.args) > 1 else kwarg(c, "batch_size")
+        v = a1
+        if isinstance(v, ast.Name):
+            d = _single_defs(f, v.id)
+            v = d[0].value if len(d) == 1 else v
+        ctx.check(isinstance(v, ast.Call) and call_name(v) == "len" and dotted(v.args[0]) == batch, c, "tracker is created with len(batch): dispatched and completed counts use the same unit")
+    cb = F(ctx, "BatchCompletionCallBack.__call__")
+    gc_ = cfg_of(cb)
+    dns = [c for c in calls_in(cb) if call_name(c) == "self._dispatch_new"]
+    ctx.floor(len(dns), 1, "_dispatch_new call sites in the callback")
+    for i, a in enumerate(dns):
+        for b in dns:
+            if a is not b:
+                ctx.check(not gc_.path_exists(gc_.nodes_of(a), gc_.nodes_of(b)), a, "the two _dispatch_new call sites are on disjoint paths (one completion => at most one update)")
+        ctx.check(not gc_.in_cycle(gc_.nodes_of(a)[0]), a, "_dispatch_new call site is not in a loop")
+
+
+def _lt(test, small, big):
+    """test is `small < big` (or equivalent spellings)."""
+    if isinstance(test, ast.Compare) and len(test.ops) == 1:
+        l, r = _state_attr(dotted(test.left)), _state_attr(dotted(test.comparators[0]))
+        op = test.ops[0]
+        if isinstance(op, ast.Lt) and (l, r) == (small, big):
+            return True
+        if isinstance(op, ast.Gt) and (l, r) == (big, small):
+            return True
+        if isinstance(op, ast.NotEq) and {l, r} == {small, big}:
+            return True
+    return False
+
+
+def c01_stop(ctx):
+    f = F(ctx, "Parallel._wait_retrieval")
+    g = cfg_of(f)
+    rets = nodes_of_type(f, ast.Return)
+    false_rets = [r for r in rets if is_const(r.value, False)]
+    ctx.need(false_rets, "_wait_retrieval has no `return False` (shape not recognised)")
+    for r in false_rets:
+        conds = g.conditions_at(g.nodes_of(r))
+        it = any(unparse(t) == "self._iterating" and not pol for (_, t, pol) in conds)
+        cnt = any(_lt(t, "n_completed_tasks", "n_dispatched_tasks") and not pol for (_, t, pol) in conds)
+        ctx.check(it, r, "retrieval stops only when the input is no longer being iterated",
+                  "retrieval can stop while _iterating is still true: tasks not yet dispatched are lost")
+        ctx.check(cnt, r, "retrieval stops only when completed >= dispatched",
+                  "retrieval can stop while dispatched tasks are still running: their results are lost")
+    for r in rets:
+        if not (isinstance(r.value, ast.Constant) and isinstance(r.value.value, bool)):
+            ctx.need(False, "_wait_retrieval returns a non-literal: shape not recognised")
+    # who clears _iterating
+    allowed = {"Parallel.dispatch_next", "Parallel._start", "Parallel._get_sequential_output"}
+    n = 0
+    for fn in _par_methods(ctx):
+        for a in nodes_of_type(fn, ast.Assign):
+            if any(_state_attr(t) == "_iterating" for t in stores_to(a)) and is_const(a.value, False):
+                n += 1
+                ctx.check(fn._qualname in allowed, a, "_iterating cleared at a known site (%s)" % fn._qualname,
+                          "_iterating is cleared in %s: retrieval may stop before all tasks were dispatched" % fn._qualname)
+    ctx.floor(n, 3, "sites clearing _iterating")
+    dn = F(ctx, "Parallel.dispatch_next")
+    gd = cfg_of(dn)
+    for a in nodes_of_type(dn, ast.Assign):
+        if "self._iterating" in stores_to(a):
+            conds = gd.conditions_at(gd.nodes_of(a))
+            ok = any(isinstance(t, ast.UnaryOp) and isinstance(t.op, ast.Not) and isinstance(t.operand, ast.Call) and call_name(t.operand) == "self.dispatch_one_batch" and pol for (_, t, pol) in conds)
+            ctx.check(ok, a, "dispatch_next clears _iterating only after dispatch_one_batch returned False (input exhausted)")
+    dob = [c for c in calls_in(dn) if call_name(c) == "self.dispatch_one_batch"]
+    ctx.check(len(dob) == 1 and dob[0].args and dotted(dob[0].args[0]) == "self._original_iterator", dob[0] if dob else dn,
+              "dispatch_next dispatches exactly one batch from the original iterator")
+    st = F(ctx, "Parallel._start")
+    gs = cfg_of(st)
+    sets = [a for a in nodes_of_type(st, ast.Assign) if "self._iterating" in stores_to(a) and not is_const(a.value, False)]
+    ctx.check(len(sets) == 1 and unparse(sets[0].value) == "self._original_iterator is not None", sets[0] if sets else st,
+              "_start marks the call as iterating iff callbacks may still dispatch from the original iterator")
+    for a in sets:
+        conds = gs.conditions_at(gs.nodes_of(a))
+        ctx.check(any(isinstance(t, ast.Call) and call_name(t) == "self.dispatch_one_batch" and pol for (_, t, pol) in conds), a, "only after a first batch was dispatched")
+    # a loop drains the pre-dispatch slice
+    loops = [w for w in nodes_of_type(st, ast.While) if isinstance(w.test, ast.Call) and call_name(w.test) == "self.dispatch_one_batch"]
+    ctx.check(bool(loops), loops[0] if loops else st, "_start dispatches the pre_dispatch slice until it is exhausted")
+
+
+def c01_callback_siblings(ctx):
+    f = F(ctx, "PoolManagerMixin.submit", BK)
+    cs = [c for c in calls_in(f) if call_attr(c) == "apply_async"]
+    ctx.need(cs, "PoolManagerMixin.submit no longer uses apply_async")
+    for c in cs:
+        cb, ecb = kwarg(c, "callback"), kwarg(c, "error_callback")
+        ctx.check(cb is not None and dotted(cb) == "callback", c, "pool submit attaches the completion callback")
+        ctx.check(ecb is not None and dotted(ecb) == "callback", c, "pool submit attaches the same callback for failures (error_callback)",
+                  "error_callback is not the completion callback: a failed batch never completes for Parallel")
+    f2 = F(ctx, "LokyBackend.submit", BK)
+    g = cfg_of(f2)
+    add = [c for c in calls_in(f2) if call_attr(c) == "add_done_callback"]
+    ctx.check(bool(add) and all(c.args and dotted(c.args[0]) == "callback" for c in add), add[0] if add else f2, "loky submit attaches the callback to the future")
+    for c in add:
+        conds = g.conditions_at(g.nodes_of(c))
+        ctx.check(all(unparse(t) == "callback is not None" and pol for (_, t, pol) in conds), c, "attached whenever a callback is given")
+    sub = [c for c in calls_in(f2) if call_name(c) == "self._workers.submit"]
+    ctx.check(len(sub) == 1 and sub[0].args and dotted(sub[0].args[0]) == "func" and not g.in_cycle(g.nodes_of(sub[0])[0]), sub[0] if sub else f2, "loky submit submits the batch exactly once")
+    ctx.check(len(cs) == 1 and not cfg_of(f).in_cycle(cfg_of(f).nodes_of(cs[0])[0]), cs[0], "pool submit submits the batch exactly once")
+
+
+def c01_reduce(ctx):
+    f = F(ctx, "BatchedCalls.__reduce__")
+    init = F(ctx, "BatchedCalls.__init__")
+    rets = nodes_of_type(f, ast.Return)
+    ctx.need(len(rets) == 1 and isinstance(rets[0].value, ast.Tuple) and len(rets[0].value.elts) == 2, "__reduce__ does not return a 2-tuple")
+    cls_, args = rets[0].value.elts
+    ctx.check(dotted(cls_) == "BatchedCalls", rets[0], "rebuilt as BatchedCalls")
+    ctx.need(isinstance(args, ast.Tuple), "reduce args not a tuple literal")
+    n_params = len(init.args.args) - 1
+    ctx.check(len(args.elts) == n_params, rets[0], "reduce tuple arity (%d) matches __init__ (%d)" % (len(args.elts), n_params))
+    ctx.check(dotted(args.elts[0]) == "self.items", rets[0], "the task list itself crosses the process boundary, in order")
+    e1 = args.elts[1]
+    ctx.check(isinstance(e1, ast.Tuple) and [dotted(x) for x in e1.elts] == ["self._backend", "self._n_jobs"], rets[0], "nested backend and n_jobs are carried along")
